@@ -1,0 +1,35 @@
+//go:build verif
+
+package pmath
+
+// Contracts for the verification machinery in /verif (comment-only; see /verif/DESIGN.md).
+
+//@ property C19
+//@ spec func pow2(x int) bool = x&(x-1) == 0
+//@ func fillBits
+//@   mode bv
+//@   requires n >= 0
+//@   ensures ge: result >= n
+//@   ensures allones: result&(result+1) == 0
+//@   ensures tight: implies(n > 0, result>>1 < n)
+//@ func CeilToPowerOfTwo
+//@   mode bv
+//@   pure
+//@   requires n >= 0
+//@   panics_iff n > maxintHeadBit
+//@   ensures small: implies(n <= 2, result == n)
+//@   ensures ceil: implies(n > 2, result >= n && pow2(result) && result>>1 < n)
+//@ func FloorToPowerOfTwo
+//@   mode bv
+//@   requires n >= 0
+//@   ensures small: implies(n <= 2, result == n)
+//@   ensures floor: implies(n > 2, result <= n && pow2(result) && n>>1 < result)
+//@ func IsPowerOfTwo
+//@   mode bv
+//@   ensures result == pow2(n)
+//@ func Max
+//@   mode bv
+//@   ensures result >= a && result >= b && (result == a || result == b)
+//@ func Min
+//@   mode bv
+//@   ensures result <= a && result <= b && (result == a || result == b)
